@@ -27,6 +27,22 @@ WRITERS = {"i8": "int8", "i16": "int16", "i32": "int32", "i64": "int64", "u8": "
 NEST = [("i8", "i16"), ("i16", "i32"), ("i32", "i64"), ("u8", "u16"), ("u16", "u32"), ("u32", "u64")]
 
 
+
+class _UnknownOffset(datetime.tzinfo):
+    """a tzinfo object that cannot tell its offset"""
+
+    def utcoffset(self, dt):
+        return None
+
+    def dst(self, dt):
+        return None
+
+    def tzname(self, dt):
+        return None
+
+
+_UNKNOWN_OFFSET = _UnknownOffset()
+
 def grid(lo, hi, rng):
     s = {lo - 2, lo - 1, lo, lo + 1, -1, 0, 1, hi - 1, hi, hi + 1, hi + 2}
     for k in range(0, 72):
@@ -60,7 +76,12 @@ def run(ctx):
         nonlocal n
         T = getattr(P, tname)
         n += 1
-        member = isinstance(pyval, T)
+        try:
+            member = isinstance(pyval, T)
+        except Exception as e:  # noqa: BLE001  (membership is a total predicate: a non-member yields False)
+            fails.append({"what": f"isinstance({kind} {arg}, {tname}) raised {type(e).__name__} instead of answering",
+                          "type": tname, "kind": kind, "arg": str(arg)})
+            member = False
         c1, c2 = ctor_outcome(T, pyval), ctor_outcome(T.parse, pyval)
         if expect_member is not None and member != expect_member:
             fails.append({"what": f"isinstance({kind} {arg}, {tname}) is {member}, documented domain says {expect_member}",
@@ -147,6 +168,10 @@ def run(ctx):
         m = probe("TZAware", "dta", us, dt, us >= 0 and us % 1000 == 0)
         probe("TZAwareMicros", "dta", us, dt, us >= 0)
         probe("TZAware", "dtn", us, dt.replace(tzinfo=None), False)
+        # a tzinfo that does not know its offset leaves the datetime naive (Python's definition of aware
+        # asks for a non-None utcoffset): no instant, hence no member
+        probe("TZAware", "dtn", us, dt.replace(tzinfo=_UNKNOWN_OFFSET), False)
+        probe("TZAwareMicros", "dtn", us, dt.replace(tzinfo=_UNKNOWN_OFFSET), False)
         if m:
             buf = io.BytesIO()
             try:
